@@ -126,7 +126,7 @@ PROPS = {
     "C08": {
         "level": "exploration",
         "interpreters": ALL,
-        "rule": "all ordered pairs of the constant universe S-CONST (47 atoms incl. signed zeros, NaN, infinities, 2^53 neighbours, huge ints, complex with signed zero/NaN parts, lone surrogates, tag-lookalike strings, bytes, Ellipsis; closed under 1-tuples, singleton frozensets, pairs over a 12-atom core, one more nesting level; each value built twice independently) compared as Constant, as one-instruction CodeData and against the JSON-loaded copy: == must coincide with CPython's constant partition (_PyCode_ConstantKey, NaNs merged; cross-checked against the harness's strict key on every pair), be symmetric, consistent with !=, and imply equal hashes and mutual set/dict membership; equal values encode to identical code. All ordered pairs of CodeData obtained from a spread of 300 (thorough 1500) grammar programs by 7 routes (decode, decode of an independent compile, normalize, JSON load of both, field-by-field reconstruction, decode of encode). setattr/delattr of every field of every dataclass. distinct_nontrivial = distinct equal pairs of non-identical objects + (type, field) pairs.",
+        "rule": "all ordered pairs of the constant universe S-CONST (47 atoms incl. signed zeros, NaN, infinities, 2^53 neighbours, huge ints, complex with signed zero/NaN parts, lone surrogates, tag-lookalike strings, bytes, Ellipsis; closed under 1-tuples, singleton frozensets, pairs over a 12-atom core, one more nesting level; each value built twice independently) compared as Constant, as one-instruction CodeData and against the JSON-loaded copy: == must coincide with CPython's constant partition (_PyCode_ConstantKey, NaNs merged; cross-checked against the harness's strict key on every pair), be symmetric, consistent with !=, and imply equal hashes and mutual set/dict membership; equal values encode to identical code. All ordered pairs of CodeData obtained from a spread of 300 (thorough 600) grammar programs by 7 routes (decode, decode of an independent compile, normalize, JSON load of both, field-by-field reconstruction, decode of encode). setattr/delattr of every field of every dataclass. distinct_nontrivial = distinct equal pairs of non-identical objects + (type, field) pairs.",
         "assumptions": TRUST + ["on 3.11-3.13 only the hand-built and JSON routes exist (from_code cannot run there)"],
         "required_reach": {"quick": ["equal-pair-ok", "unequal-pair-ok", "frozen-ok", "route-pair-equal"]},
     },
